@@ -120,6 +120,25 @@ def twins(tier, seed):
             where = "inside the storage integer" if N < S else "beyond the storage integer"
             add(_case("x", N, [la(N - ext, K)]), _case("x", N, [la(N - ext + 1, K)]), "beyond-base-width",
                 "list array whose last element passes bit N-1, %s, %s" % (where, "native base" if N in NATIVE else "arbitrary-int base"), "list-array")
+        if N >= 16:
+            # list arrays of several shapes (gapped, descending, single bits) x strides (element width, element span, beyond): one element more than
+            # fits, and the whole array moved up by one bit
+            for shp, rs in (("two separated pairs", [(0, 1), (6, 7)]), ("every other bit", [(0, 0), (2, 2), (4, 4), (6, 6)]), ("descending nibbles", [(4, 7), (0, 3)]), ("two separated bits", [(0, 0), (3, 3)])):
+                w = sum(hi - lo + 1 for lo, hi in rs)
+                span = max(hi for lo, hi in rs) + 1
+                for stride in sorted({w, span, span + 1, 2 * span}):
+                    kmax = (N - span) // stride + 1
+                    if kmax < 2:
+                        continue
+                    sname = "stride = element width" if stride == w else ("stride = element span" if stride == span else "stride %d" % stride)
+                    mkl = lambda lo, K: uint_field("x", [(a + lo, b + lo) for a, b in rs], array=arr(K, stride))
+                    where = "inside the storage integer" if (kmax * stride + span - 1) < S else "beyond the storage integer"
+                    add(_case("x", N, [mkl(0, kmax)]), _case("x", N, [mkl(0, kmax + 1)]), "beyond-base-width",
+                        "list array (%s, %s) with one element more than fits, %s, %s" % (shp, sname, where, "native base" if N in NATIVE else "arbitrary-int base"), "list-array")
+                    ext = (kmax - 1) * stride + span
+                    where = "inside the storage integer" if N < S else "beyond the storage integer"
+                    add(_case("x", N, [mkl(N - ext, kmax)]), _case("x", N, [mkl(N - ext + 1, kmax)]), "beyond-base-width",
+                        "list array (%s, %s) moved one bit past bit N-1, %s, %s" % (shp, sname, where, "native base" if N in NATIVE else "arbitrary-int base"), "list-array")
         # --- type width vs selected bits ---
         for w in (1, 2, 3, 7, 8, 9, 16, 31, 32, 33, 64):
             if w > N:
